@@ -11,8 +11,8 @@ using namespace lib;
 static std::atomic<int> g_tsan_reports{0};
 extern "C" void __tsan_on_report(void *) { g_tsan_reports.fetch_add(1, std::memory_order_relaxed); }
 
-enum { T_OWN_CYCLE, T_SHARED_ENCODE, T_SHARED_DECODE, T_SHARED_RECON, T_SHARED_QUERY, T_OWN_HOLD, T_NOPS };
-static const char *TOPN[] = {"own_cycle", "shared_encode", "shared_decode", "shared_recon", "shared_query", "own_hold"};
+enum { T_OWN_CYCLE, T_SHARED_ENCODE, T_SHARED_DECODE, T_SHARED_RECON, T_SHARED_QUERY, T_OWN_HOLD, T_SHARED_VERIFY, T_NOPS };
+static const char *TOPN[] = {"own_cycle", "shared_encode", "shared_decode", "shared_recon", "shared_query", "own_hold", "shared_verify"};
 
 static Config own_shape(int a) {
     Config g;
@@ -62,6 +62,7 @@ struct TOp { int op, a, b; };
 struct Worker {
     int tid; std::vector<TOp> ops; std::vector<Shared> *shared; pthread_barrier_t *bar; std::atomic<uint64_t> *clock;
     std::string err; std::vector<LiveRec> lives; int spins = 0;
+    std::atomic<uint64_t> *progress = nullptr; std::atomic<int> *finished = nullptr;
 };
 
 static bool cycle_check(int desc, const Config &g, int b, std::string &err) {
@@ -91,6 +92,7 @@ static void *worker_main(void *p) {
     pthread_barrier_wait(w.bar);
     for (auto &o : w.ops) {
         if (!w.err.empty()) break;
+        if (w.progress) w.progress->fetch_add(1);
         for (int i = 0; i < (o.b >> 8) % 4; i++) sched_yield();      // generated padding
         switch (o.op) {
         case T_OWN_CYCLE: case T_OWN_HOLD: {
@@ -130,6 +132,23 @@ static void *worker_main(void *p) {
                 if (r.rc == 0) { if (r.out != sh.s.frags[lost]) w.err = "shared reconstruct returned a different fragment"; } else if (demand) w.err = "shared reconstruct failed rc=" + std::to_string(r.rc); }
             break;
         }
+        case T_SHARED_VERIFY: {
+            // stripe-level verification (one registry look-up per fragment) in a tight loop while other threads create
+            // and destroy instances: must answer 0 every time - and must come back
+            if (w.shared->empty()) break;
+            Shared &sh = (*w.shared)[o.a % w.shared->size()];
+            if (sh.g.backend == ref::B_NULL) break;
+            std::vector<InBuf *> bufs; std::vector<char *> ptrs;
+            for (auto &f : sh.s.frags) { bufs.push_back(new InBuf(f, false)); ptrs.push_back(bufs.back()->p); }
+            int rounds = 20 + (o.b & 0xff);
+            for (int i = 0; i < rounds && w.err.empty(); i++) {
+                int rc = liberasurecode_verify_stripe_metadata(sh.desc, ptrs.data(), (int)ptrs.size());
+                if (rc != 0) w.err = "verify_stripe_metadata on an intact shared stripe returned " + std::to_string(rc);
+                if (w.progress) w.progress->fetch_add(1);
+            }
+            for (auto *b : bufs) delete b;
+            break;
+        }
         case T_SHARED_QUERY: {
             if (w.shared->empty()) break;
             Shared &sh = (*w.shared)[o.a % w.shared->size()];
@@ -145,6 +164,7 @@ static void *worker_main(void *p) {
         }
     }
     for (auto &h : held) { uint64_t td = w.clock->fetch_add(1); if (liberasurecode_instance_destroy(h.first) != 0 && w.err.empty()) w.err = "destroy of held instance failed"; for (auto &l : w.lives) if (l.desc == h.first && l.t_destroy == ~0ull) { l.t_destroy = td; break; } }
+    if (w.finished) w.finished->fetch_add(1);
     return nullptr;
 }
 
@@ -169,7 +189,8 @@ static Result run_c18(const Case &c) {
     pthread_barrier_t bar; pthread_barrier_init(&bar, nullptr, nt);
     std::atomic<uint64_t> clock{0};
     std::vector<Worker> ws(nt);
-    for (int t = 0; t < nt; t++) { ws[t].tid = t; ws[t].shared = &shared; ws[t].bar = &bar; ws[t].clock = &clock; }
+    std::atomic<uint64_t> progress{0}; std::atomic<int> finished{0};
+    for (int t = 0; t < nt; t++) { ws[t].tid = t; ws[t].shared = &shared; ws[t].bar = &bar; ws[t].clock = &clock; ws[t].progress = &progress; ws[t].finished = &finished; }
     std::map<std::string, int> opcount;
     bool any_rs_first = true;
     for (auto &s : shared) if (s.g.backend == ref::B_RS) any_rs_first = false;
@@ -181,6 +202,22 @@ static Result run_c18(const Case &c) {
     }
     std::vector<pthread_t> th(nt);
     for (int t = 0; t < nt; t++) pthread_create(&th[t], nullptr, worker_main, &ws[t]);
+    {
+        // watchdog: the calls must come back. No thread finishing an operation for 45 seconds (an operation takes
+        // milliseconds) while some are still inside the library is reported as a deadlock; the threads cannot be
+        // joined then, so the verdict ends the process (fatal result, case saved as it is)
+        uint64_t last = progress.load(); int quiet = 0;
+        int limit = (int)opts().geti("hang_seconds", 45);
+        while (finished.load() < nt) {
+            usleep(100000);
+            uint64_t now = progress.load();
+            if (now != last) { last = now; quiet = 0; } else if (++quiet > limit * 10) {
+                r.fatal = true;
+                r.fail("no thread completed an operation for " + std::to_string(limit) + " s while " + std::to_string(nt - finished.load()) + " thread(s) are still inside the library: deadlock");
+                return r;
+            }
+        }
+    }
     for (int t = 0; t < nt; t++) pthread_join(th[t], nullptr);
     pthread_barrier_destroy(&bar);
     for (auto &w : ws) if (!w.err.empty()) r.fail("thread " + std::to_string(w.tid) + ": " + w.err);
@@ -217,7 +254,7 @@ static Case gen_c18() {
     int per = (int)pick(1, 6);
     std::vector<int> ops;
     for (int t = 0; t < nt; t++) for (int j = 0; j < per; j++) {
-        int op = nshared ? weighted({5, 2, 2, 2, 2, 2}) : weighted({5, 0, 0, 0, 0, 2});
+        int op = nshared ? weighted({5, 2, 2, 2, 2, 2, 2}) : weighted({5, 0, 0, 0, 0, 2, 0});
         int a = (int)pick(0, 255);
         if (j == 0 && coin(2, 3) && (op == T_OWN_CYCLE || op == T_OWN_HOLD)) a &= ~7;     // RS first: concurrent first-ever RS creates
         ops.push_back(t); ops.push_back(op); ops.push_back(a); ops.push_back((int)pick(0, 1023));
@@ -231,6 +268,18 @@ static Case gen_c18() {
             c.setv("shared", std::vector<int>{hd4});
             ops.clear();
             for (int t = 0; t < nt; t++) for (int j = 0; j < per + 1; j++) { ops.push_back(t); ops.push_back(coin(3, 4) ? T_SHARED_DECODE : T_SHARED_RECON); ops.push_back(0); ops.push_back((int)pick(0, 1023) | 1); }
+        }
+    }
+    if (coin(1, 6)) {
+        // scenario: half of the threads verify a wide shared stripe in a loop, the others create, use and destroy
+        // instances (registry writers arriving while a reader is in the middle of a multi-look-up call)
+        int wide = ((int)pick(0, 7) * 5 + 4) * 8 + (coin() ? 0 : 2);        // RS k=10 or a flat-XOR table
+        c.setv("shared", std::vector<int>{wide});
+        ops.clear();
+        for (int t = 0; t < nt; t++) for (int j = 0; j < per + 1; j++) {
+            ops.push_back(t);
+            if (t % 2 == 0) { ops.push_back(T_SHARED_VERIFY); ops.push_back(0); ops.push_back(255); }
+            else { ops.push_back(T_OWN_CYCLE); ops.push_back((int)pick(0, 255)); ops.push_back((int)pick(0, 255)); }
         }
     }
     c.setv("ops", ops);
